@@ -87,6 +87,8 @@ class World:
             self._assign(op)
         elif kind == "bad":
             self._bad(op)
+        elif kind == "assign_random":
+            self._assign_random(op)
         self._observe(op)
 
     # ---- building the argument
@@ -144,6 +146,31 @@ class World:
                 self.rec.label("nontrivial:partial-after-" + self.last_full_form)
         if full:
             self.last_full_form = form if form != "partial" else "dict"
+
+    def _assign_random(self, op):
+        import scipy.stats as ss
+        from pygom.utilR import runif
+        arg = {}
+        for n, sp in zip(op["names"], op["spec"]):
+            if sp["kind"] == "frozen-uniform":
+                arg[n] = ss.uniform(loc=sp["a"], scale=sp["b"])
+            elif sp["kind"] == "frozen-gamma":
+                arg[n] = ss.gamma(a=4.0, scale=sp["a"] / 4.0)
+            else:
+                arg[n] = (runif, (sp["a"], sp["a"] + sp["b"]))
+        self.rec.label("assign:partial-random" + ("+solve" if op.get("solve") else ""))
+        np.random.seed(12345 + self.n_ops)
+        try:
+            self.model.parameters = arg
+            if op.get("solve") and self.m.get("probe"):
+                # a deterministic solve re-draws the random parameters; the fixed ones must survive it
+                self.model.initial_values = ([1.0] * len(ir.state_names(self.m)), 0.0)
+                self.model.solve_determ([0.5, 1.0], 1)
+        except Exception as e:
+            raise PropertyViolation("C09/assign/partial-random/raises", "partial dict with distribution values raised %s: %s" % (
+                type(e).__name__, str(e)[:200]), None)
+        for n in op["names"]:
+            self.vals[n] = None          # a random draw: not a value the history specifies
 
     def _bad(self, op):
         self.rec.label("bad:" + op["kind"])
@@ -212,8 +239,11 @@ def _point(draw, m):
     return [draw(S.fl(0.1, 20.0)) for _ in range(n_s)], draw(S.fl(0.0, 20.0))
 
 
-def _vals(draw, names, zero_ok=False):
+def _vals(draw, names, zero_ok=False, scale=1.0):
     vtype = draw(st.sampled_from(["float", "float", "int", "np"]))
+    if scale != 1.0:
+        # a history at a tiny parameter scale: every value and every change between assignments is far below 1e-8
+        return "float", [S.sig(draw(S.fl(0.05, 5.0)) * scale, 4) for _ in names]
     if vtype == "int":
         vals = [draw(st.integers(0 if zero_ok else 1, 9)) for _ in names]
     else:
@@ -227,14 +257,28 @@ def _vals(draw, names, zero_ok=False):
 def gen_model(draw):
     if draw(st.integers(0, 9)) < 6:
         n = draw(st.sampled_from([1, 2, 3, 3, 4, 5]))
-        return probe_model(n, list(draw(st.permutations(list(range(n))))))
+        m = probe_model(n, list(draw(st.permutations(list(range(n))))))
+        m["pscale"] = draw(st.sampled_from([1.0, 1.0, 1.0, 1.0, 1e-9]))
+        return m
     return draw(S.general_model(max_states=3, max_events=3, allow_range=False))
+
+
+def gen_assign_partial_random(draw, m):
+    """A partial dict whose values are distributions (frozen scipy objects / (sampler, args)): the names it mentions take a
+    random value, every other name must keep what it had."""
+    params = m["params"]
+    names = draw(st.lists(st.sampled_from(params), min_size=1, max_size=max(1, len(params) - 1), unique=True))
+    spec = [{"kind": draw(st.sampled_from(["frozen-uniform", "frozen-gamma", "tuple-runif"])),
+             "a": draw(S.fl(0.2, 1.0, 3)), "b": draw(S.fl(0.1, 0.5, 3))} for _ in names]
+    op = {"op": "assign_random", "names": names, "spec": spec, "solve": draw(st.booleans())}
+    op["x"], op["t"] = _point(draw, m)
+    return op
 
 
 def gen_assign_positional(draw, m):
     names = list(m["params"])
     form = draw(st.sampled_from(["list", "tuple", "array", "array_col"]))
-    vtype, vals = _vals(draw, names, zero_ok=bool(m.get("probe")))
+    vtype, vals = _vals(draw, names, zero_ok=bool(m.get("probe")), scale=m.get("pscale", 1.0))
     if form.startswith("array"):
         vtype = "float"
     x, t = _point(draw, m)
@@ -244,7 +288,7 @@ def gen_assign_positional(draw, m):
 def gen_assign_named(draw, m):
     names = list(draw(st.permutations(m["params"])))
     form = draw(st.sampled_from(["pairs", "pairs", "pairs_tuple", "dict", "dict", "dict"]))
-    vtype, vals = _vals(draw, names, zero_ok=bool(m.get("probe")))
+    vtype, vals = _vals(draw, names, zero_ok=bool(m.get("probe")), scale=m.get("pscale", 1.0))
     op = {"op": "assign", "form": form, "names": names, "values": vals, "vtype": vtype}
     if form == "dict":
         op["keykinds"] = [draw(st.sampled_from(["str", "sym"])) for _ in names]
@@ -255,7 +299,7 @@ def gen_assign_named(draw, m):
 def gen_assign_partial(draw, m):
     params = m["params"]
     names = draw(st.lists(st.sampled_from(params), min_size=1, max_size=max(1, len(params) - 1), unique=True))
-    vtype, vals = _vals(draw, names, zero_ok=bool(m.get("probe")))
+    vtype, vals = _vals(draw, names, zero_ok=bool(m.get("probe")), scale=m.get("pscale", 1.0))
     op = {"op": "assign", "form": "partial", "names": names, "values": vals, "vtype": vtype,
           "keykinds": [draw(st.sampled_from(["str", "sym"])) for _ in names]}
     op["x"], op["t"] = _point(draw, m)
@@ -309,9 +353,10 @@ def history_strategy(tier, max_ops=10):
         m = gen_model(draw)
         ops = [{"op": "init", "model": m}]
         for _ in range(draw(st.integers(1, max_ops))):
-            kind = draw(st.sampled_from(["positional", "named", "named", "partial", "partial", "bad"]))
+            kind = draw(st.sampled_from(["positional", "named", "named", "partial", "partial", "bad", "random"]))
             # (a partial dict is accepted as the very first assignment as well)
-            gen = {"positional": gen_assign_positional, "named": gen_assign_named, "partial": gen_assign_partial, "bad": gen_bad}[kind]
+            gen = {"positional": gen_assign_positional, "named": gen_assign_named, "partial": gen_assign_partial, "bad": gen_bad,
+                   "random": gen_assign_partial_random}[kind]
             ops.append(gen(draw, m))
         return {"ops": ops}
     return hist()
@@ -352,6 +397,14 @@ def machine(tier, rec, ctl):
             if self.dead:
                 return
             self.do(gen_assign_partial(data.draw, self.world.m))
+
+        @precondition(lambda self: self.dead or (self.world is not None and hasattr(self.world.model, "_parameters")
+                                                 and self.world.m.get("probe")))
+        @rule(data=st.data())
+        def assign_partial_random(self, data):
+            if self.dead:
+                return
+            self.do(gen_assign_partial_random(data.draw, self.world.m))
 
         @precondition(lambda self: self.dead or (self.world is not None))
         @rule(data=st.data())
